@@ -370,8 +370,38 @@ func classOf(res string) string {
 	return res
 }
 
+// hypUpperHasLower: the law `UpperHasLower` (Spec/KeyEvent.lean) on Go's tables over ALL of Unicode: every lower-case
+// rune with an upper case of its own, with that upper case's rows (uniSet.add closes under ToUpper / ToLower).
+func (h *H) hypUpperHasLower() {
+	u := uniSet{}
+	res := "holds"
+	n, title := 0, 0
+	for r := rune(0); r <= unicode.MaxRune; r++ {
+		if !unicode.IsLower(r) || unicode.ToUpper(r) == r {
+			continue
+		}
+		u.add(r)
+		n++
+		U := unicode.ToUpper(r)
+		if unicode.ToLower(U) == U {
+			res = "fails"
+			h.r.Count("hyp_violated:UpperHasLower")
+		}
+		if !unicode.IsUpper(U) {
+			title++
+		}
+	}
+	h.r.Emit("hypl "+u.tok(), res)
+	h.r.Add("hypl:lower-case-runes-with-an-upper-case", n)
+	h.r.Add("hypl:of-which-upper-case-is-not-IsUpper(title-case)", title)
+	if res == "holds" {
+		h.r.Count("hyp_ok:UpperHasLower")
+	}
+}
+
 func (h *H) uniStreams() {
 	h.hypAscii()
+	h.hypUpperHasLower()
 	for _, x := range h.uniPoints() {
 		c, C := x, rune(0)
 		if unicode.IsUpper(x) {
@@ -399,6 +429,17 @@ func (h *H) uniStreams() {
 			res := h.emitHyp("plain", c, 0, wt)
 			if !expressible {
 				h.r.Count("xpu-skipped:not-a-character-key-in-both-protocols")
+				if shiftedForm && !unicode.IsUpper(c) && !functionalU(c) && c >= 0x20 && c != 0x7F {
+					// the title-case letters: not kitty key codes (ToLower(c) != c). Run on the real code under both
+					// "encodings" anyway (the driver checks the claim and compares with the model; not judged)
+					forms := []int{0, 4}
+					if wt {
+						forms = []int{20}
+					}
+					for _, f := range forms {
+						h.emitXpu("plain", "outside:not-a-kitty-key-code", c, 0, 0, f)
+					}
+				}
 				continue
 			}
 			forms := []int{0, 4, 12}
